@@ -405,6 +405,8 @@ def walker_dependency(rep, tier):
 def check(rep, tier):
     from vlib import statecensus
     statecensus.obligations(rep, 'C11', 'planner')
+    from vlib import resolverdep
+    resolverdep.obligations(rep, tier, 'C11')
     walker_dependency(rep, tier)
     rep.dropped = 'method bodies read with ast.parse; the rewrite visitor is a nested closure executed by pysym'
     rep.assume('C13 coverage of identifiers by the walker', 'C10.strip for the qualifier edit', 'meaning preservation of the edit set under shadowing is NOT decided (bounded only)')
